@@ -34,6 +34,8 @@ ASSUMPTIONS = [
     'specification choices: +-Inf is outside the range of every type (also float/double), NaN is representable in float/double only; '
     'default fill of the memory type `long` is NC_FILL_INT (as the variable API does)',
     'the clang-14 front end (types of sub-expressions, implicit conversions) is trusted by the translator',
+    'round-to-nearest-even is the Gallina function Convert.rne shared by model and specification (proved: exact on representable values); '
+    'its rounding decisions are validated on every run against an independent exact-rational implementation (python oracle) and the hardware casts, not proved nearest',
 ]
 
 XT = ['BYTE', 'UBYTE', 'SHORT', 'USHORT', 'INT', 'UINT', 'FLOAT', 'DOUBLE', 'INT64', 'UINT64']
